@@ -677,8 +677,10 @@ def relParts (b : URL) (r : Ref) : List Str :=
   else [] :: (b.parts.drop 1).dropLast ++ splitSlash r.path
 
 /-- the query `navigate` hands to `from_parts` -/
-def relQuery (b : URL) (r : Ref) : QPairs :=
-  if r.path = [] then (if parseQsl (r.query.getD []) = [] then b.query else parseQsl (r.query.getD []))
+def relQuery (honour : Bool) (b : URL) (r : Ref) : QPairs :=
+  if r.path = [] then
+    (if parseQsl (r.query.getD []) = [] ∧ ¬ (honour = true ∧ r.query.isSome = true) then b.query
+     else parseQsl (r.query.getD []))
   else parseQsl (r.query.getD [])
 
 theorem ofRelRef_pathText (r : Ref) : (URL.ofRelRef r).pathText = r.path := by
@@ -690,26 +692,26 @@ theorem authorityText_ne_nil (u : URL) (h : u.host ≠ []) : u.authorityText ≠
   by_cases hv : u.v6 <;> simp [hv, h]
 
 /-- explicit form of `base.navigate(ref)` for a base with a host and a rooted path -/
-def relResult (b : URL) (r : Ref) : URL :=
-  { b with netlocSep := false, parts := resolvePathParts (relParts b r), query := relQuery b r,
-           fragment := r.fragment.getD [] }
+def relResult (honour : Bool) (b : URL) (r : Ref) : URL :=
+  { b with netlocSep := false, parts := resolvePathParts (relParts b r), query := relQuery honour b r,
+           hasQuery := false, fragment := r.fragment.getD [] }
 
-@[simp] theorem relResult_scheme (b : URL) (r : Ref) : (relResult b r).scheme = b.scheme := rfl
-@[simp] theorem relResult_host (b : URL) (r : Ref) : (relResult b r).host = b.host := rfl
-@[simp] theorem relResult_parts (b : URL) (r : Ref) :
-    (relResult b r).parts = resolvePathParts (relParts b r) := rfl
-@[simp] theorem relResult_query (b : URL) (r : Ref) : (relResult b r).query = relQuery b r := rfl
-@[simp] theorem relResult_fragment (b : URL) (r : Ref) :
-    (relResult b r).fragment = r.fragment.getD [] := rfl
-@[simp] theorem relResult_authorityText (b : URL) (r : Ref) :
-    (relResult b r).authorityText = b.authorityText := rfl
+@[simp] theorem relResult_scheme (honour : Bool) (b : URL) (r : Ref) : (relResult honour b r).scheme = b.scheme := rfl
+@[simp] theorem relResult_host (honour : Bool) (b : URL) (r : Ref) : (relResult honour b r).host = b.host := rfl
+@[simp] theorem relResult_parts (honour : Bool) (b : URL) (r : Ref) :
+    (relResult honour b r).parts = resolvePathParts (relParts b r) := rfl
+@[simp] theorem relResult_query (honour : Bool) (b : URL) (r : Ref) : (relResult honour b r).query = relQuery honour b r := rfl
+@[simp] theorem relResult_fragment (honour : Bool) (b : URL) (r : Ref) :
+    (relResult honour b r).fragment = r.fragment.getD [] := rfl
+@[simp] theorem relResult_authorityText (honour : Bool) (b : URL) (r : Ref) :
+    (relResult honour b r).authorityText = b.authorityText := rfl
 
-theorem navigate_rel (b : URL) (r : Ref) (hb : AbsBase b) :
-    b.navigate (URL.ofRelRef r) = relResult b r := by
+theorem navigate_rel (honour : Bool) (b : URL) (r : Ref) (hb : AbsBase b) :
+    URL.navigateWith honour b (URL.ofRelRef r) = relResult honour b r := by
   unfold relResult
   obtain ⟨segs, hsegs⟩ := hb.rooted
   have hpt := ofRelRef_pathText r
-  unfold URL.navigate
+  unfold URL.navigateWith
   rw [hpt]
   have hnabs : ¬ ((URL.ofRelRef r).scheme ≠ [] ∧ (URL.ofRelRef r).host ≠ []) := by
     simp [URL.ofRelRef, URL.ofComponents]
@@ -752,7 +754,8 @@ theorem navigate_rel (b : URL) (r : Ref) (hb : AbsBase b) :
   have e6 : (URL.ofRelRef r).port = 0 := by simp [URL.ofRelRef, URL.ofComponents]
   have e7 : (URL.ofRelRef r).query = parseQsl (r.query.getD []) := by simp [URL.ofRelRef, URL.ofComponents]
   have e8 : (URL.ofRelRef r).fragment = r.fragment.getD [] := by simp [URL.ofRelRef, URL.ofComponents]
-  rw [e1, e2, e3, e4, e5, e6, e7, e8, hb.lowerScheme, hb.lowerHost]
+  have e9 : (URL.ofRelRef r).hasQuery = r.query.isSome := by simp [URL.ofRelRef, URL.ofComponents]
+  rw [e1, e2, e3, e4, e5, e6, e7, e8, e9, hb.lowerScheme, hb.lowerHost]
   cases b
   simp [relQuery]
 
@@ -909,6 +912,39 @@ theorem dotFree_root (segs : List Str) : DotFree ([] :: segs) ↔ DotFree segs :
     · simp [dot, dotdot]
     · exact h s hs
 
+/-- the same without any condition on the base path, against the NORMALISED RFC target (dot segments of an
+    inherited base path removed too - RFC 3986 6.2.2.3; the statement's "normalized result") -/
+theorem navigate_path_eq_normalized_rfc (b : URL) (segs : List Str) (r : Ref) (hr : RelRef r)
+    (hp : b.parts = [] :: segs) (hns : ∀ s ∈ segs, NoSlash s) (base : Ref)
+    (hauth : base.authority.isSome) (hpath : base.path = flat segs) :
+    joinSlash (resolvePathParts (relParts b r)) = removeDotSegments (resolve base r).path := by
+  rw [relParts_eq b r segs hp, resolvePathParts_root, joinSlash_root,
+    rfc_path_rel base segs r hr hauth hpath hns]
+  by_cases h1 : r.path = []
+  · simp only [h1, if_true]
+    rw [removeDotSegments_flat segs hns]
+    simp [relSegs, h1]
+  · simp only [h1, if_false]
+    have hns' := relSegs_noSlash segs r hns
+    rw [removeDotSegments_flat _ hns']
+    -- removing dot segments again changes nothing: the stack is slash-free and dot-free
+    have hroot := resolvePathParts_root (relSegs segs r)
+    have hdf : DotFree (process [] (relSegs segs r)) := by
+      have := resolvePathParts_dotFree ([] :: relSegs segs r)
+      rw [hroot] at this
+      exact (dotFree_root _).1 this
+    have hns2 : ∀ s ∈ process [] (relSegs segs r), NoSlash s := by
+      intro s hs
+      have hm : s ∈ resolvePathParts ([] :: relSegs segs r) := by rw [hroot]; simp [hs]
+      rcases resolvePathParts_mem _ s hm with h | h
+      · simp at h
+        rcases h with rfl | h
+        · simp [NoSlash]
+        · exact hns' s h
+      · subst h; simp [NoSlash]
+    rw [removeDotSegments_flat _ hns2, process_of_dotFree _ hdf]
+    simp
+
 theorem optQuery_roundtrip (o : Option Str) (h : CanonQ o) :
     dropEmpty (optOfStr (queryText (parseQsl (o.getD [])))) = dropEmpty o := by
   cases o with
@@ -920,10 +956,10 @@ theorem optQuery_roundtrip (o : Option Str) (h : CanonQ o) :
 
 /-- the query comparison: what `navigate` keeps = the RFC target's query, up to the empty marker,
     outside the defective region (empty path, present-but-empty query, base with a query) -/
-theorem relQuery_eq_rfc (b : URL) (base r : Ref) (hr : RelRef r)
+theorem relQuery_eq_rfc (honour : Bool) (b : URL) (base r : Ref) (hr : RelRef r)
     (hbq : base.query = optOfStr (queryText b.query)) (hcq : CanonQ r.query)
-    (hq : ¬ (r.path = [] ∧ r.query = some [] ∧ queryText b.query ≠ [])) :
-    dropEmpty (optOfStr (queryText (relQuery b r))) = dropEmpty (resolve base r).query := by
+    (hq : honour = true ∨ ¬ (r.path = [] ∧ r.query = some [] ∧ queryText b.query ≠ [])) :
+    dropEmpty (optOfStr (queryText (relQuery honour b r))) = dropEmpty (resolve base r).query := by
   rw [resolve_rel_query base r hr, hbq]
   unfold relQuery
   by_cases h1 : r.path = []
@@ -934,15 +970,101 @@ theorem relQuery_eq_rfc (b : URL) (base r : Ref) (hr : RelRef r)
       rw [hrq] at hcq
       by_cases hqe : q = []
       · subst hqe
-        have : queryText b.query = [] := by
-          by_cases hb : queryText b.query = []
-          · exact hb
-          · exact absurd ⟨h1, hrq, hb⟩ hq
-        simp [this, optOfStr, dropEmpty]
+        rcases hq with hh | hq
+        · subst hh
+          have e0 : queryText ([] : QPairs) = [] := rfl
+          simp [e0, parseQsl_nil, optOfStr, dropEmpty]
+        · have : queryText b.query = [] := by
+            by_cases hb : queryText b.query = []
+            · exact hb
+            · exact absurd ⟨h1, hrq, hb⟩ hq
+          have e0 : queryText ([] : QPairs) = [] := rfl
+          cases honour <;> simp [this, e0, parseQsl_nil, optOfStr, dropEmpty]
       · have hne := parseQsl_ne_nil q hcq hqe
         simp [hne, queryText_parseQsl q hcq, hqe, optOfStr, dropEmpty]
   · simp only [h1, if_false]
     exact optQuery_roundtrip r.query hcq
+
+/-! ### Appendix B parse of a reference text = the model's cuts -/
+
+theorem cutAt_hash (t : Str) :
+    (cutAt '#' t).1 = t.takeWhile (notIn ['#']) ∧
+    (cutAt '#' t).2 = parseFragmentPart (t.dropWhile (notIn ['#'])) := by
+  induction t with
+  | nil => simp [cutAt, parseFragmentPart]
+  | cons x xs ih =>
+    by_cases h : x = '#'
+    · subst h; simp [cutAt, notIn, parseFragmentPart]
+    · have hn : notIn ['#'] x = true := by simp [notIn, h]
+      simp [cutAt, h, hn, ih.1, ih.2]
+
+/-- path / query / fragment of Appendix B = the cuts of the model, for every text -/
+theorem pqf_eq (t : Str) :
+    t.takeWhile (notIn ['?', '#']) = (cutAt '?' (cutAt '#' t).1).1 ∧
+    (parseQueryPart (t.dropWhile (notIn ['?', '#']))).1 = (cutAt '?' (cutAt '#' t).1).2 ∧
+    parseFragmentPart (parseQueryPart (t.dropWhile (notIn ['?', '#']))).2 = (cutAt '#' t).2 := by
+  induction t with
+  | nil => simp [cutAt, parseQueryPart, parseFragmentPart]
+  | cons x xs ih =>
+    by_cases h1 : x = '#'
+    · subst h1; simp [cutAt, notIn, parseQueryPart, parseFragmentPart]
+    · by_cases h2 : x = '?'
+      · subst h2
+        have := cutAt_hash xs
+        simp [cutAt, notIn, parseQueryPart, this.1, this.2]
+      · have hn : notIn ['?', '#'] x = true := by simp [notIn, h1, h2]
+        simp [cutAt, h1, h2, hn, ih.1, ih.2.1, ih.2.2]
+
+theorem parseScheme_none (t : Str) (h : (parseScheme t).1 = none) : (parseScheme t).2 = t := by
+  unfold parseScheme at h ⊢
+  simp only at h ⊢
+  split at h
+  · by_cases hp : List.takeWhile (notIn [':', '/', '?', '#']) t ≠ []
+    · simp [hp] at h
+    · simp [hp]
+  · rfl
+
+theorem parseAuthority_none (t : Str) (h : (parseAuthority t).1 = none) : (parseAuthority t).2 = t := by
+  unfold parseAuthority at h ⊢
+  split at h <;> simp_all
+
+/-- for a text that Appendix B parses without scheme and without authority, the RFC parse IS the model's -/
+theorem rfcParse_rel (t : Str) (hs : (rfcParse t).scheme = none) (ha : (rfcParse t).authority = none) :
+    rfcParse t = refOfText t := by
+  have h1 : (parseScheme t).1 = none := hs
+  have e1 := parseScheme_none t h1
+  have h2 : (parseAuthority (parseScheme t).2).1 = none := ha
+  have e2 := parseAuthority_none _ h2
+  have := pqf_eq t
+  unfold rfcParse refOfText
+  simp only [Ref.mk.injEq]
+  rw [e1] at h2 e2
+  refine ⟨h1, ?_, ?_, ?_, ?_⟩
+  · rw [e1]; exact h2
+  · rw [e1, e2]; exact this.1
+  · rw [e1, e2]; exact this.2.1
+  · rw [e1, e2]; exact this.2.2
+
+/-- a cut loses nothing: the two pieces and the separator give the text back -/
+theorem cutAt_join (c : Char) (t : Str) :
+    (cutAt c t).1 ++ (match (cutAt c t).2 with | none => [] | some r => c :: r) = t := by
+  induction t with
+  | nil => simp [cutAt]
+  | cons x xs ih =>
+    by_cases h : x = c
+    · subst h; simp [cutAt]
+    · simp only [cutAt, h, if_false, List.cons_append]
+      rw [ih]
+
+/-- the model's components of a reference text recompose (RFC 3986 5.3) to that text -/
+theorem recompose_refOfText (t : Str) : recompose (refOfText t) = t := by
+  unfold recompose refOfText
+  simp only [List.nil_append]
+  have h1 := cutAt_join '#' t
+  have h2 := cutAt_join '?' (cutAt '#' t).1
+  rw [List.append_assoc]
+  conv => rhs; rw [← h1, ← h2]
+  cases (cutAt '?' (cutAt '#' t).1).2 <;> cases (cutAt '#' t).2 <;> simp
 
 /-! ### the fuel of the RFC loop does not matter once it covers the input -/
 
